@@ -26,8 +26,8 @@ MANIFEST = dict(
 
 # sizes (number of nodes) per vocabulary and tier
 SIZES = {
-    "quick": {"V": 3, "N": 4, "D": 5, "F": 3},
-    "thorough": {"V": 4, "N": 5, "D": 6, "F": 4},
+    "quick": {"V": 3, "N": 4, "D": 5, "F": 3, "P": 4},
+    "thorough": {"V": 4, "N": 5, "D": 6, "F": 4, "P": 5},
 }
 
 COND = {"k": "bin", "op": "==", "a": {"k": "var", "sig": "", "id": "r1000"}, "b": {"k": "int", "v": 0}}
@@ -293,7 +293,7 @@ def run(chk, replay=None):
         inp = {"id": row["id"], "lang": row["lang"].replace("+e", ""), "body": subst(row["keyed"], names)}
         if with_enum:
             inp["genum"] = "ALIAS"      # = Scopes!AliasVar: a global enum const spelled like the register alias
-        if row["clean"] and inp["lang"] == "own" and row["fam"] != "F":
+        if row["clean"] and inp["lang"] == "own" and row["fam"] not in ("F", "P"):
             inp["ren"] = [subst(row["keyed"], {oc["p"]: oc[r] for oc in row["occ"]}) for r in ("r1", "r2")]
             if with_enum:
                 inp["ren_genum"] = ["ge1", "ge2"]
@@ -335,7 +335,7 @@ def run(chk, replay=None):
                                         for w, g in zip(want, got) if w[0].startswith("@")],
                         "diagnostics": o["resolve"].get("diag")})
     chk.set("exhaustive", True)
-    chk.set("rule", "every scope tree of the vocabularies V/N/D/F of Gen_ScopeTrees.tla up to the listed node counts (x both languages "
+    chk.set("rule", "every scope tree of the vocabularies V/N/D/F/P of Gen_ScopeTrees.tla up to the listed node counts (x both languages "
                     "when a mapfile alias is mentioned); each is resolved by the real resolve_names and compared occurrence by "
                     "occurrence with Scopes!Declarative; error-free trees without function items are also compiled under two renamings")
     chk.assume("a local and a const of one name declared in the same block, and uses that see a redefinition: generated and run, occurrences not compared")
